@@ -111,10 +111,10 @@ if spec["mode"] == "threads":
             except BaseException as e:
                 res[rpc] = f"{type(e).__name__}: {str(e)[:160]}"
         ts = [threading.Thread(target=one, args=(rpc, 0.004 * ((i + rnd) % 3)), daemon=True) for i, rpc in enumerate(spec["rpcs"])]
-        [t.start() for t in ts]; [t.join(60) for t in ts]
+        [t.start() for t in ts]; [t.join(240) for t in ts]
         for rpc in spec["rpcs"]:
             if rpc not in res:
-                out["bad"].append(("threads", rpc, "open_alos2 did not return within 60 s")); out["n"] += 1
+                out["bad"].append(("threads", rpc, "open_alos2 did not return within 240 s")); out["n"] += 1
             elif isinstance(res[rpc], str):
                 out["bad"].append(("threads", rpc, "raised " + res[rpc])); out["n"] += 1
             else:
@@ -142,10 +142,10 @@ else:
         def rd():
             with os.fdopen(r) as f:
                 box["msg"] = f.read()
-        t = threading.Thread(target=rd, daemon=True); t.start(); t.join(40)
+        t = threading.Thread(target=rd, daemon=True); t.start(); t.join(180)
         if "msg" not in box or not box["msg"]:
             os.kill(pid, signal.SIGKILL)
-            out["bad"].append(("fork", rpc, "open_alos2 in a forked worker did not return within 40 s (the parent opened the same product before the fork)")); out["n"] += 1
+            out["bad"].append(("fork", rpc, "open_alos2 in a forked worker did not return within 180 s (the parent opened the same product before the fork)")); out["n"] += 1
         else:
             m = json.loads(box["msg"])
             if "err" in m:
